@@ -17,6 +17,8 @@ of `mask` (valIdx 0 = absent) is the answer; unknown ids/values answer false; th
 ops: `add:i:v` `upd:i:v` `ups:i:v` `del:i`; times are dropped from `pull`/`burst` answers (`0`).
 `pull:keep1` / `pull:keep2` (and `burst:…`) add a read mask: messages are two-field tokens `ab`, the
 mask keeps the first resp. second field and the stripped one reads `_`.
+`pull:<mask>:<equiv>:<0|1>` additionally configures an equivalence (`none`/`same`/`first`, applied to the
+masked old/new after include) and `WithUpdatesOnly` (no seed).
 -/
 namespace ScVerif.C08
 open ScVerif.Line ScVerif.C09
@@ -76,22 +78,46 @@ def maskProj (m : String) : Option (String → String) :=
   else if m = "keep2" then some (fun s => match s.toList with | [_, b] => String.ofList ['_', b] | _ => s)
   else none
 
-/-- `pull` / `pull:<mask>` -/
-def parseOpName? (name : String) (s : String) : Option (String → String) :=
-  if s = name then some id
+/-- The equivalences the harness configures (`WithEquivalence`), on optional message tokens; both are
+reflexive and transitive. `same`: equal; `first`: both present with the same first field, or both absent. -/
+def equivOf (e : String) : Option (Option (Option String → Option String → Bool)) :=
+  if e = "none" then some none
+  else if e = "same" then some (some (fun a b => a == b))
+  else if e = "first" then some (some (fun a b =>
+    match a, b with
+    | some x, some y => x.toList.head? == y.toList.head?
+    | none, none => true
+    | _, _ => false))
+  else none
+
+structure PullOpts where
+  proj : String → String
+  equiv : Option (Option String → Option String → Bool)
+  updatesOnly : Bool
+
+/-- `pull` / `pull:<mask>` / `pull:<mask>:<equiv>:<updatesOnly 0|1>` -/
+def parseOpName? (name : String) (s : String) : Option PullOpts :=
+  if s = name then some ⟨id, none, false⟩
   else match s.splitOn ":" with
-    | [n, m] => if n = name then maskProj m else none
+    | [n, m] => if n = name then (maskProj m).map (fun pr => ⟨pr, none, false⟩) else none
+    | [n, m, e, u] =>
+      if n = name then do
+        let pr ← maskProj m
+        let eq ← equivOf e
+        let uo ← parseFlag? u
+        pure ⟨pr, eq, uo⟩
+      else none
     | _ => none
 
-def pullAfter (p : Option (Pred String String)) (proj : String → String) (items : List (String × String)) :
+def pullAfter (p : Option (Pred String String)) (o : PullOpts) (items : List (String × String)) :
     List (Op String String) → List String
   | [] => []
   | op :: ops =>
     let r := stepOp 0 items op
     let ev := match r.2 with
       | none => "fail"
-      | some c => showOptChange ((pullEvent p proj c).map zeroTime)
-    (ev ++ "@" ++ listOf p proj r.1) :: pullAfter p proj r.1 ops
+      | some c => showOptChange ((pullStep p o.proj o.equiv c).map zeroTime)
+    (ev ++ "@" ++ listOf p o.proj r.1) :: pullAfter p o r.1 ops
 
 /-- Every stream `mergeCollectionExcess` can emit for the inputs `ins`, over all recv/emit patterns,
 draining at the end. -/
@@ -112,16 +138,16 @@ def handle? (toks : List String) : Option String :=
     let c ← parseChange? c
     pure (showOptChange (includeChange p c))
   | op :: p :: n :: ops => do
-    if let some proj := parseOpName? "pull" op then
+    if let some o := parseOpName? "pull" op then
     let p ← parsePred? p
     let n ← parseNat? n
     let ops ← ops.mapM parseOp?
     if n > ops.length then none
     let before := runOps 0 [] (ops.take n)
-    let seedEvs := (seedFrom 0 (sortById (itemSlice p before.1))).map (maskChange proj)
-    pure (" ".intercalate (("seed=" ++ showChanges seedEvs) :: pullAfter p proj before.1 (ops.drop n)))
+    let seedEvs := if o.updatesOnly then [] else (seedFrom 0 (sortById (itemSlice p before.1))).map (maskChange o.proj)
+    pure (" ".intercalate (("seed=" ++ showChanges seedEvs) :: pullAfter p o before.1 (ops.drop n)))
     else
-    let proj ← parseOpName? "burst" op
+    let o ← parseOpName? "burst" op
     let p ← parsePred? p
     let n ← parseNat? n
     let ops ← ops.mapM parseOp?
@@ -130,7 +156,7 @@ def handle? (toks : List String) : Option String :=
     let after := runOps 0 before.1 (ops.drop n)
     let ins := after.2.map zeroTime
     let streams := (allEmits (2 * ins.length + 2) MState.init ins).map
-      (fun em => showChanges (em.filterMap (pullEvent p proj)))
+      (fun em => showChanges (em.filterMap (pullStep p o.proj o.equiv)))
     pure ("|".intercalate streams.eraseDups)
   | _ => none
 
